@@ -16,17 +16,18 @@ const (
 
 // G is a PRNG-driven, depth-bounded generator of terminating programs.
 type G struct {
-	R       *rand.Rand
-	Prof    Profile
-	k       int // next probe id
-	nfn     int // next function / module / counter name
-	budget  int
-	pool    []string // int-valued names used at every nesting level
-	Feat    map[string]int // features used (for coverage tags / non-triviality)
-	funcs   []fnInfo       // callable script functions in scope (lexically)
-	defined []map[string]bool
+	noAddr          bool
+	R               *rand.Rand
+	Prof            Profile
+	k               int // next probe id
+	nfn             int // next function / module / counter name
+	budget          int
+	pool            []string       // int-valued names used at every nesting level
+	Feat            map[string]int // features used (for coverage tags / non-triviality)
+	funcs           []fnInfo       // callable script functions in scope (lexically)
+	defined         []map[string]bool
 	allowTryControl bool
-	nestedFuncs []nestedFunc
+	nestedFuncs     []nestedFunc
 }
 
 type nestedFunc struct {
@@ -49,11 +50,11 @@ type fnInfo struct {
 }
 
 type ctx struct {
-	depth     int
-	inLoop    bool // break/continue allowed
-	inFunc    bool
-	tryBrk    bool // a break/continue here would leave a try body (known finding territory)
-	tryRet    bool // a return here would leave a try body
+	depth  int
+	inLoop bool // break/continue allowed
+	inFunc bool
+	tryBrk bool // a break/continue here would leave a try body (known finding territory)
+	tryRet bool // a return here would leave a try body
 }
 
 func New(r *rand.Rand, prof Profile) *G {
@@ -364,6 +365,8 @@ func (g *G) stmt(c ctx) []Stmt {
 		add(1+2*ws, func() []Stmt { return g.escapingClosure(c) })
 		add(1+3*we, func() []Stmt { return g.deferLocalClosureTwice(c) })
 		add(1+3*we, func() []Stmt { return g.callbackThrows(c) })
+		add(1+2*ws, func() []Stmt { return g.declOnlyBlock(c) })
+		add(1+wc, func() []Stmt { return g.returnElementOrder() })
 	}
 	if c.inLoop && (!c.tryBrk || g.allowControlInTry()) {
 		add(2+3*wc+ws, func() []Stmt { g.feat("break"); return []Stmt{&Break{}} })
@@ -412,6 +415,61 @@ func (g *G) strayControl(c ctx) []Stmt {
 		Cond: &Binary{Op: "<", L: &Name{N: cnt}, R: &IntLit{V: 2}}, Post: &OpAssign{Target: &Name{N: cnt}, Op: "+"},
 		Body: []Stmt{&ExprStmt{X: g.p()}, &ExprStmt{X: &Call{Fn: fn, Args: args}}, &ExprStmt{X: g.p()}}}
 	return []Stmt{&ExprStmt{X: f}, loop, &ExprStmt{X: g.p()}}
+}
+
+// declOnlyBlock: an if / else-if / else block whose only binding statement is a
+// named function declaration: the name is bound in the block, an outer binding
+// of the same name is untouched and the name is not visible afterwards
+func (g *G) declOnlyBlock(c ctx) []Stmt {
+	g.feat("block-with-only-func-decl")
+	name := g.fresh("bd")
+	outer := g.R.Intn(2) == 0
+	decl := []Stmt{&ExprStmt{X: &FuncLit{Name: name, Body: []Stmt{&ExprStmt{X: g.p()}, &Return{Exprs: []Expr{&IntLit{V: 1}}}}}},
+		&ExprStmt{X: &Call{Fn: name}}}
+	if g.R.Intn(3) == 0 {
+		decl = append(decl, &ExprStmt{X: g.p()})
+	}
+	s := &If{}
+	switch g.R.Intn(3) {
+	case 0:
+		s.Cond, s.Then = &BoolLit{V: true}, decl
+	case 1:
+		s.Cond, s.Then = &BoolLit{V: false}, []Stmt{&ExprStmt{X: g.p()}}
+		s.ElseIfs = []ElseIf{{Cond: &BoolLit{V: true}, Body: decl}}
+	default:
+		s.Cond, s.Then = &BoolLit{V: false}, []Stmt{&ExprStmt{X: g.p()}}
+		s.HasElse, s.Else = true, decl
+	}
+	var out []Stmt
+	if outer {
+		out = append(out, &Assign{LHS: []Expr{&Name{N: name}}, RHS: []Expr{&IntLit{V: 7}}})
+	}
+	out = append(out, s, &ExprStmt{X: &Call{Fn: "rd", Args: []Expr{&StrLit{V: name}, &Coalesce{L: &Name{N: name}, R: &StrLit{V: "<undef>"}}}}})
+	return out
+}
+
+// returnElementOrder: the operands of a multi-value return are read left to right,
+// each when it is evaluated: a later operand that overwrites the slot an earlier
+// operand named does not change the value already taken
+func (g *G) returnElementOrder() []Stmt {
+	g.feat("return-multi-element-then-mutation")
+	l, mf, fn := g.fresh("ml"), g.fresh("mm"), g.fresh("mr")
+	var first Expr = &Index{X: &Name{N: l}, I: &IntLit{V: 0}}
+	mut := Stmt(&Assign{LHS: []Expr{&Index{X: &Name{N: l}, I: &IntLit{V: 0}}}, RHS: []Expr{&IntLit{V: 99}}})
+	if g.R.Intn(4) == 0 {
+		first = &Index{X: &Index{X: &Name{N: l}, I: &IntLit{V: 2}}, I: &IntLit{V: 0}}
+		mut = &Assign{LHS: []Expr{&Index{X: &Index{X: &Name{N: l}, I: &IntLit{V: 2}}, I: &IntLit{V: 0}}}, RHS: []Expr{&IntLit{V: 99}}}
+	}
+	rets := []Expr{first, &Call{Fn: mf}}
+	if g.R.Intn(3) == 0 {
+		rets = append(rets, &Index{X: &Name{N: l}, I: &IntLit{V: 1}})
+	}
+	return []Stmt{
+		&Assign{LHS: []Expr{&Name{N: l}}, RHS: []Expr{&ListLit{Elems: []Expr{&IntLit{V: 11}, &IntLit{V: 22}, &ListLit{Elems: []Expr{&IntLit{V: 33}}}}}}},
+		&ExprStmt{X: &FuncLit{Name: mf, Body: []Stmt{mut, &ExprStmt{X: g.p()}, &Return{Exprs: []Expr{&IntLit{V: 5}}}}}},
+		&ExprStmt{X: &FuncLit{Name: fn, Body: []Stmt{&Return{Exprs: rets}}}},
+		&ExprStmt{X: &Call{Fn: "rd", Args: []Expr{&StrLit{V: fn}, &Call{Fn: fn}}}},
+		&ExprStmt{X: &Call{Fn: "rd", Args: []Expr{&StrLit{V: l}, &Name{N: l}}}}}
 }
 
 // escapingClosure: an invocation stores a closure over its parameters/locals in
